@@ -27,6 +27,9 @@ def harnesses(tier):
             scenario_harness("nested-raise-window", Profile(
                 templates=("N12",), raises="free", crit_job="free", crit_sched="free", window="free",
                 perm="id"), o, pre=_pre),
+            scenario_harness("nested-handlers-that-never-return", Profile(
+                templates=("N11", "N12"), timeout="always", timeout_scope="top", sd_never="free", sdt="always",
+                perm="id", crit_job=False, edges="none"), o, pre=_pre),
             scenario_harness("flat4-orders", Profile(
                 templates=("F4",), crit_job=False, perm="two", top="pure"), o, pre=_pre),
         ]
